@@ -1107,14 +1107,29 @@ func E3BoundsExtrema(c *core.Ctx, r *core.Report) {
 				}
 			}
 			r.Count("E3.arc-atan2", len(calls))
+			have := map[string]bool{}
 			for _, a := range calls {
-				key := "canvas.Path.Bounds|" + label + "|" + a.name
+				// role, not the local's name: the angle whose first argument carries sinφ is the X extreme
+				role := "angle of the X extreme"
+				if a.cos0 && !a.sin0 {
+					role = "angle of the Y extreme"
+				}
+				have[role] = true
+				key := "canvas.Path.Bounds|" + label + "|" + role
 				okRadii := mentionsIdent(a.a0, ry) && !mentionsIdent(a.a0, rx) && mentionsIdent(a.a1, rx) && !mentionsIdent(a.a1, ry)
 				okTrig := a.sin0 != a.cos0 && mentionsIdent(a.a1, sinName) != mentionsIdent(a.a1, cosName) && a.sin0 != mentionsIdent(a.a1, sinName)
 				if okRadii && okTrig {
 					r.OK("E3.arc-extrema", key, c.Pos(a.pos), types.ExprString(a.a0)+" , "+types.ExprString(a.a1))
 				} else {
 					r.Fail("E3.arc-extrema", key, c.Pos(a.pos), fmt.Sprintf("math.Atan2(%s, %s): the first argument must carry %s (coefficient of sinθ) and the second %s (coefficient of cosθ), with sinφ and cosφ crosswise; otherwise the extreme angle is wrong for rotated ellipses with rx≠ry and the box misses the arc's extreme", types.ExprString(a.a0), types.ExprString(a.a1), ry, rx))
+				}
+			}
+			for _, role := range []string{"angle of the X extreme", "angle of the Y extreme"} {
+				key := "canvas.Path.Bounds|" + label + "|" + role + "|own Atan2"
+				if have[role] {
+					r.OK("E3.arc-extrema", key, c.Pos(cc.Pos()), "")
+				} else {
+					r.Fail("E3.arc-extrema", key, c.Pos(cc.Pos()), "the "+role+" is not computed by its own math.Atan2: the X and Y extremes of a rotated ellipse with rx≠ry are not a quarter turn apart in the parameter θ (tanθx = −(ry/rx)·tanφ, tanθy = (ry/rx)·cotφ), so deriving one from the other decides for the wrong angle whether the arc passes through the extreme")
 				}
 			}
 			if len(calls) == 2 && calls[0].sin0 == calls[1].sin0 {
@@ -1124,7 +1139,7 @@ func E3BoundsExtrema(c *core.Ctx, r *core.Report) {
 	}
 	r.Count("E3.derivative-roots", roots)
 	r.Floor("E3.derivative-roots", 4)
-	r.Floor("E3.arc-atan2", 2)
+	r.Floor("E3.arc-atan2", 1)
 }
 
 // E3LineHeights: the line metrics are component-wise maxima over the spans (C16, one clause).
@@ -1249,4 +1264,108 @@ func E3LineHeights(c *core.Ctx, r *core.Report) {
 	} else {
 		r.Fail("E3.line-heights", "canvas.Text.Heights", c.Pos(th.Pos()), "Text.Heights does not combine the ascent (2nd result) of the first line with the descent (3rd result) of the last line")
 	}
+}
+
+// E3ArcShortcut: the half-turn shortcut of ellipseToCenter is taken only for a chord equal to the diameter.
+func E3ArcShortcut(c *core.Ctx, r *core.Report) {
+	r.Rule("E3.arc-shortcut", "ellipseToCenter's shortcut that returns the chord's midpoint as centre and a sweep of exactly π is sound only when the end points are the two ends of the (unrotated) horizontal axis, i.e. the chord |x2−x1| equals the diameter 2·rx with y1 = y2 and φ = 0. The branch whose body returns the midpoint ((x2−x1)/2 added to x1) must be guarded by Equal(|x2−x1|, 2·rx): with any other length (for example the radius) an ordinary arc gets the wrong centre, and Length, Bounds, SplitAt and flattening of that arc are wrong")
+	p := c.MustPkg("")
+	info := p.TypesInfo
+	fd := core.MustFuncDecl(p, "ellipseToCenter")
+	r.Func("canvas.ellipseToCenter")
+	rx := paramObj(info, fd, 2)
+	var found *ast.IfStmt
+	ast.Inspect(fd.Body, func(n ast.Node) bool {
+		is, ok := n.(*ast.IfStmt)
+		if !ok {
+			return true
+		}
+		// the branch that computes a midpoint: an expression (a-b)/2 in its body and a return
+		mid := false
+		for _, s := range is.Body.List {
+			ast.Inspect(s, func(m ast.Node) bool {
+				if be, ok := m.(*ast.BinaryExpr); ok && be.Op == token.QUO {
+					if v, ok := core.ConstInt(info, be.Y); ok && v == 2 {
+						if sub, ok := core.Unparen(be.X).(*ast.BinaryExpr); ok && sub.Op == token.SUB {
+							mid = true
+						}
+					}
+				}
+				return true
+			})
+		}
+		if mid && allPathsReturn(is.Body) && found == nil {
+			// must also test an Abs of a coordinate difference
+			hasAbs := false
+			ast.Inspect(is.Cond, func(m ast.Node) bool {
+				if name, _ := core.MathFunc(info, exprOf(m)); name == "Abs" {
+					hasAbs = true
+				}
+				return true
+			})
+			if hasAbs {
+				found = is
+			}
+		}
+		return true
+	})
+	key := "canvas.ellipseToCenter|half-turn shortcut|chord equals the diameter"
+	if found == nil {
+		r.OK("E3.arc-shortcut", key, c.Pos(fd.Pos()), "no midpoint shortcut: every arc goes through the general conversion")
+		r.Count("E3.arc-shortcuts", 1)
+		return
+	}
+	r.Count("E3.arc-shortcuts", 1)
+	ok := false
+	var conj func(e ast.Expr)
+	conj = func(e ast.Expr) {
+		e = core.Unparen(e)
+		if be, isB := e.(*ast.BinaryExpr); isB && be.Op == token.LAND {
+			conj(be.X)
+			conj(be.Y)
+			return
+		}
+		call, isC := e.(*ast.CallExpr)
+		if !isC || len(call.Args) != 2 {
+			return
+		}
+		if f := core.CalleeOf(info, call); f == nil || f.Name() != "Equal" {
+			return
+		}
+		for i := 0; i < 2; i++ {
+			if name, _ := core.MathFunc(info, call.Args[i]); name != "Abs" {
+				continue
+			}
+			other := core.Unparen(call.Args[1-i])
+			// 2*rx, rx*2 or rx+rx
+			if be, isB := other.(*ast.BinaryExpr); isB {
+				isRx := func(x ast.Expr) bool {
+					id, ok := core.Unparen(x).(*ast.Ident)
+					return ok && core.ObjOf(info, id) == rx
+				}
+				isTwo := func(x ast.Expr) bool {
+					if tv, ok := info.Types[x]; ok && tv.Value != nil {
+						return tv.Value.ExactString() == "2"
+					}
+					return false
+				}
+				if be.Op == token.MUL && (isRx(be.X) && isTwo(be.Y) || isTwo(be.X) && isRx(be.Y)) || be.Op == token.ADD && isRx(be.X) && isRx(be.Y) {
+					ok = true
+				}
+			}
+		}
+	}
+	conj(found.Cond)
+	if ok {
+		r.OK("E3.arc-shortcut", key, c.Pos(found.Pos()), "guarded by Equal(|x2-x1|, 2*rx)")
+	} else {
+		r.Fail("E3.arc-shortcut", key, c.Pos(found.Pos()), fmt.Sprintf("the shortcut is guarded by `%s`, which does not compare the chord with the diameter 2·rx: arcs that are not half ellipses get the chord's midpoint as centre", types.ExprString(found.Cond)))
+	}
+}
+
+func exprOf(n ast.Node) ast.Expr {
+	if e, ok := n.(ast.Expr); ok {
+		return e
+	}
+	return nil
 }
